@@ -361,7 +361,7 @@ def is_convex_ccw(xy):
     return bool(abs(turn.sum() - 2 * np.pi) < 1e-6)
 
 
-def polygon_case(rng, allow_tilt=True, kind=None, straight_frac=0.12, far_frac=0.0):
+def polygon_case(rng, allow_tilt=True, kind=None, straight_frac=0.12, far_frac=0.0, far_tilted=True):
     """One G-poly case: 3-D vertex list, the stated normal (or None), and facts."""
     xy, k = simple_polygon_2d(rng)
     if kind is not None:
@@ -420,7 +420,8 @@ def polygon_case(rng, allow_tilt=True, kind=None, straight_frac=0.12, far_frac=0
     elif k == "lattice":
         V[:, :2] += rng.integers(-10, 11, size=2)
     far = 0.0
-    if far_frac and rng.random() < far_frac:
+    if far_frac and rng.random() < far_frac and (far_tilted or not tilt):
+        # (far_tilted=False: only polygons in a plane z = const, which stay exactly planar however far they are moved)
         # the same polygon very far from the origin for its size (map coordinates, a lattice site far out): 1e5..3e6 sizes,
         # moved within its own plane (lattice polygons by whole numbers, so they stay exact)
         e1_, e2_ = (np.array([1.0, 0, 0]), np.array([0, 1.0, 0])) if not tilt else (R @ np.array([1.0, 0, 0]), R @ np.array([0, 1.0, 0]))
